@@ -1,4 +1,4 @@
-use std::collections::HashMap;
+use std::collections::{BTreeMap, HashMap};
 
 use aho_corasick::{AhoCorasickBuilder, AhoCorasickKind};
 use regex::{RegexBuilder, RegexSetBuilder};
@@ -173,7 +173,9 @@ pub fn matrix(expression: Expression) -> Expression {
 
             if matrix {
                 let mut columns: Vec<(String, u32)> = fields.into_iter().collect();
-                columns.sort_by(|x, y| x.1.cmp(&y.1));
+                // NOTE: Ties are broken by name so that the output does not depend on the order in
+                // which the hash map happens to iterate
+                columns.sort_by(|x, y| x.1.cmp(&y.1).then_with(|| x.0.cmp(&y.0)));
                 let columns: Vec<String> = columns.into_iter().map(|(c, _)| c).collect();
                 let mut rows = vec![];
                 let mut rest = vec![];
@@ -627,7 +629,9 @@ fn shake_1(expression: Expression) -> Expression {
         Expression::BooleanGroup(BoolSym::And, expressions) => {
             let length = expressions.len();
 
-            let mut nested = HashMap::new();
+            // NOTE: Ordered maps are used so that merged groups are emitted in the same order on
+            // every call
+            let mut nested = BTreeMap::new();
 
             let mut scratch = vec![];
 
@@ -671,9 +675,9 @@ fn shake_1(expression: Expression) -> Expression {
         Expression::BooleanGroup(BoolSym::Or, expressions) => {
             let length = expressions.len();
             let expressions = {
-                let mut needles = HashMap::new();
-                let mut nested = HashMap::new();
-                let mut patterns = HashMap::new();
+                let mut needles = BTreeMap::new();
+                let mut nested = BTreeMap::new();
+                let mut patterns = BTreeMap::new();
 
                 // NOTE: Order is crucial here just like in the parser, thus we copy its ideal
                 // ordering.
